@@ -39,9 +39,93 @@ class Unfoldable(Exception):
     pass
 
 
+_NORETURN = object()
+
+
 class ConstFolder:
-    def __init__(self, env: Dict[str, Any]):
+    def __init__(self, env: Dict[str, Any], functions: Optional[Dict[str, ast.FunctionDef]] = None):
         self.env = env
+        self.functions = functions or {}  # module-level helper functions (`def _quoted(names): return [...]`)
+        self._depth = 0
+
+    def _user_call(self, fn: ast.FunctionDef, args: List[Any], kwargs: Dict[str, Any]) -> Any:
+        """A module-level helper applied to folded arguments: straight-line body (assignments, for-loops that append /
+        update, if/else on folded tests) ending in `return <expr>`."""
+        if self._depth > 6 or fn.args.kwarg or fn.decorator_list:
+            raise Unfoldable(f"call {fn.name}")
+        params = [a.arg for a in fn.args.args] + [a.arg for a in fn.args.kwonlyargs]
+        local: Dict[str, Any] = {}
+        defaults = fn.args.defaults
+        pos = [a.arg for a in fn.args.args]
+        for i, p_ in enumerate(pos):
+            if i < len(args):
+                local[p_] = args[i]
+            elif p_ in kwargs:
+                local[p_] = kwargs[p_]
+            else:
+                di = i - (len(pos) - len(defaults))
+                if 0 <= di < len(defaults):
+                    local[p_] = self.ev(defaults[di], {})
+                else:
+                    raise Unfoldable(f"call {fn.name}: missing argument {p_}")
+        for a, d in zip(fn.args.kwonlyargs, fn.args.kw_defaults):
+            if a.arg in kwargs:
+                local[a.arg] = kwargs[a.arg]
+            elif d is not None:
+                local[a.arg] = self.ev(d, {})
+            else:
+                raise Unfoldable(f"call {fn.name}: missing argument {a.arg}")
+        if fn.args.vararg is not None:
+            local[fn.args.vararg.arg] = tuple(args[len(pos) :])
+        elif len(args) > len(pos):
+            raise Unfoldable(f"call {fn.name}: arguments")
+        if set(kwargs) - set(params):
+            raise Unfoldable(f"call {fn.name}: arguments")
+        self._depth += 1
+        try:
+            r = self._run(fn.body, local)
+        finally:
+            self._depth -= 1
+        if r is _NORETURN:
+            return None
+        return r
+
+    def _run(self, stmts: List[ast.stmt], local: Dict[str, Any]) -> Any:
+        for st in stmts:
+            if isinstance(st, ast.Expr) and isinstance(st.value, ast.Constant):
+                continue
+            if isinstance(st, ast.Return):
+                return self.ev(st.value, local) if st.value is not None else None
+            if isinstance(st, (ast.Assign, ast.AnnAssign)):
+                tg = st.targets[0] if isinstance(st, ast.Assign) and len(st.targets) == 1 else getattr(st, "target", None)
+                if tg is None or st.value is None:
+                    raise Unfoldable("assignment form")
+                self._bind(tg, self.ev(st.value, local), local)
+                continue
+            if isinstance(st, ast.AugAssign) and isinstance(st.target, ast.Name) and isinstance(st.op, ast.Add):
+                local[st.target.id] = self.ev(ast.BinOp(left=ast.Name(id=st.target.id, ctx=ast.Load()), op=ast.Add(), right=st.value), local)
+                continue
+            if isinstance(st, ast.If):
+                r = self._run(st.body if self.ev(st.test, local) else st.orelse, local)
+                if r is not _NORETURN:
+                    return r
+                continue
+            if isinstance(st, ast.For) and not st.orelse:
+                it = self.ev(st.iter, local)
+                if isinstance(it, dict):
+                    it = list(it)
+                for v in list(it):
+                    self._bind(st.target, v, local)
+                    r = self._run(st.body, local)
+                    if r is not _NORETURN:
+                        return r
+                continue
+            if isinstance(st, ast.Expr) and isinstance(st.value, ast.Call) and isinstance(st.value.func, ast.Attribute) and isinstance(st.value.func.value, ast.Name) and st.value.func.value.id in local and st.value.func.attr in ("append", "extend", "add", "update") and not st.value.keywords:
+                recv = local[st.value.func.value.id]
+                getattr(recv, st.value.func.attr)(*[self.ev(a, local) for a in st.value.args])
+                continue
+            raise Unfoldable(f"statement {type(st).__name__} in helper")
+        return _NORETURN
 
     def ev(self, n: ast.AST, local: Optional[Dict[str, Any]] = None) -> Any:
         local = local or {}
@@ -50,6 +134,9 @@ class ConstFolder:
         if isinstance(n, ast.Name):
             if n.id in local:
                 return local[n.id]
+            if n.id in self.functions and n.id not in self.env:
+                fdef = self.functions[n.id]
+                return lambda *a, **k: self._user_call(fdef, list(a), k)
             if n.id in self.env:
                 v = self.env[n.id]
                 if isinstance(v, Unfoldable):
@@ -64,12 +151,28 @@ class ConstFolder:
                 else:
                     d[self.ev(k, local)] = self.ev(v, local)
             return d
-        if isinstance(n, ast.List):
-            return [self.ev(e, local) for e in n.elts]
-        if isinstance(n, ast.Tuple):
-            return tuple(self.ev(e, local) for e in n.elts)
-        if isinstance(n, ast.Set):
-            return set(self.ev(e, local) for e in n.elts)
+        if isinstance(n, (ast.List, ast.Tuple, ast.Set)):
+            items: List[Any] = []
+            for e in n.elts:
+                if isinstance(e, ast.Starred):
+                    v_ = self.ev(e.value, local)
+                    items.extend(list(v_) if not isinstance(v_, dict) else list(v_.keys()))
+                else:
+                    items.append(self.ev(e, local))
+            return items if isinstance(n, ast.List) else tuple(items) if isinstance(n, ast.Tuple) else set(items)
+        if isinstance(n, ast.IfExp):
+            return self.ev(n.body, local) if self.ev(n.test, local) else self.ev(n.orelse, local)
+        if isinstance(n, ast.BoolOp):
+            vals_ = None
+            for v_ in n.values:
+                vals_ = self.ev(v_, local)
+                if isinstance(n.op, ast.And) and not vals_:
+                    return vals_
+                if isinstance(n.op, ast.Or) and vals_:
+                    return vals_
+            return vals_
+        if isinstance(n, ast.UnaryOp) and isinstance(n.op, ast.Not):
+            return not self.ev(n.operand, local)
         if isinstance(n, ast.JoinedStr):
             out = []
             for v in n.values:
@@ -132,6 +235,10 @@ class ConstFolder:
 
                 if n.attr.isupper() and hasattr(_re, n.attr):
                     return int(getattr(_re, n.attr))
+                if n.attr == "escape":
+                    return _re.escape  # a pure function used as a value (map(re.escape, words))
+            if isinstance(base, ast.Name) and base.id == "str" and n.attr in ("upper", "lower", "strip"):
+                return getattr(str, n.attr)
             raise Unfoldable(f"attribute {ast.unparse(n)}")
         raise Unfoldable(type(n).__name__)
 
@@ -163,9 +270,26 @@ class ConstFolder:
 
     def _call(self, n: ast.Call, local):
         f = n.func
+        if isinstance(f, ast.Name) and f.id in self.functions and f.id not in local:
+            if any(k.arg is None for k in n.keywords) or any(isinstance(a, ast.Starred) for a in n.args):
+                raise Unfoldable("star arguments")
+            return self._user_call(self.functions[f.id], [self.ev(a, local) for a in n.args], {k.arg: self.ev(k.value, local) for k in n.keywords})
+        if isinstance(f, ast.Name) and f.id == "dict" and not n.args:
+            return {k.arg: self.ev(k.value, local) for k in n.keywords if k.arg}
+        if isinstance(f, ast.Attribute) and f.attr == "join" and n.keywords == []:
+            pass
         if n.keywords and not (isinstance(f, ast.Attribute) and f.attr == "compile"):
+            if isinstance(f, ast.Name) and f.id == "sorted" and all(k.arg == "reverse" for k in n.keywords):
+                return sorted(self.ev(n.args[0], local), reverse=bool(self.ev(n.keywords[0].value, local)))
             raise Unfoldable("keywords")
-        args = [self.ev(a, local) for a in n.args]
+        args = []
+        for a in n.args:
+            if isinstance(a, ast.Starred):
+                args.extend(list(self.ev(a.value, local)))
+            else:
+                args.append(self.ev(a, local))
+        if isinstance(f, ast.Attribute) and isinstance(f.value, ast.Name) and f.value.id == "dict" and f.attr == "fromkeys" and args:
+            return dict.fromkeys(list(args[0]) if not isinstance(args[0], dict) else list(args[0].keys()), *(args[1:2]))
         if isinstance(f, ast.Attribute):
             # re.compile
             if isinstance(f.value, ast.Name) and f.value.id == "re" and f.attr == "escape" and len(args) == 1 and isinstance(args[0], str):
@@ -182,12 +306,19 @@ class ConstFolder:
             if isinstance(recv, str):
                 if f.attr == "join":
                     return recv.join(list(args[0]))
-                if f.attr in ("lower", "upper", "strip", "format", "replace"):
+                if f.attr in ("lower", "upper", "strip", "lstrip", "rstrip", "format", "replace", "split", "startswith", "endswith", "removeprefix", "removesuffix", "capitalize"):
                     return getattr(recv, f.attr)(*args)
             if isinstance(recv, dict) and f.attr in ("keys", "values", "items") and not args:
                 return list(getattr(recv, f.attr)())
+            if isinstance(recv, dict) and f.attr == "get" and args:
+                return recv.get(*args)
             raise Unfoldable(f"method {f.attr}")
         if isinstance(f, ast.Name):
+            if f.id == "map" and len(args) == 2:
+                fn_ = args[0]
+                if callable(fn_):
+                    return [fn_(x) for x in (list(args[1].keys()) if isinstance(args[1], dict) else list(args[1]))]
+                raise Unfoldable("map over an unknown function")
             if f.id == "chain":
                 return list(itertools.chain(*[list(a) if not isinstance(a, dict) else list(a) for a in args]))
             if f.id in ("list", "tuple", "sorted", "set", "frozenset", "len", "str", "int"):
@@ -205,7 +336,7 @@ def fold_module(ctx: Ctx, rel: str) -> Dict[str, Any]:
     """Fold every module-level simple assignment of `rel`; unfoldable ones map to Unfoldable instances."""
     m = pyfacts(ctx).mod(rel)
     env: Dict[str, Any] = {}
-    cf = ConstFolder(env)
+    cf = ConstFolder(env, {f.name: f for f in m.tree.body if isinstance(f, ast.FunctionDef)})
     for st in m.tree.body:
         tgt = None
         val = None
